@@ -284,7 +284,7 @@ class DelayedS3Writer(S3Limits):
             mpu.uploadId = uploadId
             return mpu
 
-        lock = DLock(self._build_name("MPULock"), client)
+        lock = DLock(self._build_name("MPULock"))
         with lock:
             uploadId = _safe_get(shared_state, 0.1)
             if uploadId is not None:
